@@ -87,8 +87,7 @@ def symbolic_leg(e: Engine, P: Dict[str, Any], model: Any, rest: Dict[str, List[
     next_inner = None
     if exiting is not None:
         d = dummies[wmap[exiting][0]]
-        fn = stubs.DummyManager.__aexit__ if an.with_offsets[exiting] else stubs.DummyManager.__exit__
-        next_inner = stubs.FakeFrame(fn.__code__, 0, {"self": d, "exc": ()})
+        next_inner = stubs.exit_frame_for(d, an.with_offsets[exiting])
     with warnings.catch_warnings(record=True) as w:
         warnings.simplefilter("always")
         with contextlib.redirect_stderr(io.StringIO()):
